@@ -2448,6 +2448,30 @@ impl Server {
             Some(RequestType::DeactivateListener(ref deactivate)) => {
                 push_queue(self.notify_deactivate_listener(&req_id, deactivate));
             }
+            // Every request read from the channel gets exactly one final answer:
+            // the main process counts the answers of its workers, silence would
+            // make it wait forever. A request without a type and the kinds that
+            // only the main process handles have no proxy destination and no
+            // special case above.
+            None
+            | Some(RequestType::SaveState(_))
+            | Some(RequestType::LoadState(_))
+            | Some(RequestType::CountRequests(_))
+            | Some(RequestType::QueryCertificatesFromTheState(_))
+            | Some(RequestType::QueryHealthChecks(_))
+            | Some(RequestType::ListWorkers(_))
+            | Some(RequestType::ListFrontends(_))
+            | Some(RequestType::ListListeners(_))
+            | Some(RequestType::LaunchWorker(_))
+            | Some(RequestType::UpgradeMain(_))
+            | Some(RequestType::UpgradeWorker(_))
+            | Some(RequestType::SubscribeEvents(_))
+            | Some(RequestType::ReloadConfiguration(_)) => {
+                push_queue(worker_response_error(
+                    req_id,
+                    "this request is not handled by a worker",
+                ));
+            }
             _other_request => {}
         };
     }
